@@ -20,6 +20,7 @@ package metadata
 import (
 	"bytes"
 	"errors"
+	"fmt"
 
 	"github.com/bits-and-blooms/bloom/v3"
 	"github.com/siglens/siglens/pkg/segment/structs"
@@ -28,15 +29,28 @@ import (
 	log "github.com/sirupsen/logrus"
 )
 
-func readRangeIndexFromByteArray(blkRILen uint32, bbRI []byte) map[string]*structs.Numbers {
+var errRangeIndexTooShort = errors.New("range index is shorter than its entries")
+
+func readRangeIndexFromByteArray(blkRILen uint32, bbRI []byte) (map[string]*structs.Numbers, error) {
 	var byteCounter uint32 = 0
 	blkRI := map[string]*structs.Numbers{}
 
+	if uint64(blkRILen) > uint64(len(bbRI)) {
+		return nil, errRangeIndexTooShort
+	}
+
 	for byteCounter < blkRILen {
 		//read RangeKeyLen
+		if uint64(byteCounter)+2 > uint64(blkRILen) {
+			return nil, errRangeIndexTooShort
+		}
 		blkRangeKeyLen := utils.BytesToUint16LittleEndian(bbRI[byteCounter : byteCounter+2])
 
 		byteCounter += 2
+		// the key, the RangeNumType and the min and max values must fit
+		if uint64(byteCounter)+uint64(blkRangeKeyLen)+1+16 > uint64(blkRILen) {
+			return nil, errRangeIndexTooShort
+		}
 		//read ActualRangeKey
 		blkActualRangeKey := string(bbRI[byteCounter : byteCounter+uint32(blkRangeKeyLen)])
 		byteCounter += uint32(blkRangeKeyLen)
@@ -47,10 +61,13 @@ func readRangeIndexFromByteArray(blkRILen uint32, bbRI []byte) map[string]*struc
 		byteCounter += 1
 		var blkRIToAdd *structs.Numbers
 		blkRIToAdd, byteCounter = rangeIndexToBytes(blkActualRangeKey, blkRangeNumType, bbRI, byteCounter)
+		if blkRIToAdd == nil {
+			return nil, fmt.Errorf("unknown range num type %v for key %v", blkRangeNumType, blkActualRangeKey)
+		}
 		blkRI[blkActualRangeKey] = blkRIToAdd
 
 	}
-	return blkRI
+	return blkRI, nil
 }
 
 func rangeIndexToBytes(blkActualRangeKey string, blkRangeNumType sutils.RangeNumType, bbBlockRI []byte, byteCounter uint32) (*structs.Numbers, uint32) {
@@ -82,6 +99,11 @@ func getCmi(cmbuf []byte) (*structs.CmiContainer, error) {
 
 	cmic := &structs.CmiContainer{}
 
+	if len(cmbuf) == 0 {
+		log.Errorf("getCmi: empty cmi")
+		return nil, errors.New("getCmi: empty cmi")
+	}
+
 	switch cmbuf[0] {
 	case sutils.CMI_BLOOM_INDEX[0]:
 		bufRdr := bytes.NewReader(cmbuf[1:])
@@ -95,7 +117,11 @@ func getCmi(cmbuf []byte) (*structs.CmiContainer, error) {
 		cmic.Loaded = true
 		cmic.Bf = blkBloom
 	case sutils.CMI_RANGE_INDEX[0]:
-		blkRI := readRangeIndexFromByteArray(uint32(len(cmbuf)-1), cmbuf[1:])
+		blkRI, rierr := readRangeIndexFromByteArray(uint32(len(cmbuf)-1), cmbuf[1:])
+		if rierr != nil {
+			log.Errorf("getCmi: failed to convert range cmi %+v", rierr)
+			return nil, rierr
+		}
 		cmic.CmiType = sutils.CMI_RANGE_INDEX[0]
 		cmic.Loaded = true
 		cmic.Ranges = blkRI
